@@ -506,6 +506,14 @@ for _cd in list(_REG.get("C16", [])):
     if _cd.name in ("Hook.lifecycle", "Hook.flags_reconfigured", "StateHook.forward") and not any(x.name == _cd.name for x in _REG.get(P, [])):
         contract(P, _cd.name, list(_cd.targets), min_obligations=_cd.min_obligations)(_cd.fn)
 
+# ... and the pooling key of Observable.add_monitor (two cells are pooled only when name, tags and the LAYER-relative target
+# agree), a small contract of its own in C18, is an obligation here as well
+from . import c18_dastdp as _c18  # noqa: E402,F401
+
+for _cd in list(_REG.get("C18", [])):
+    if _cd.name == "Observable.add_monitor[pooling key]" and not any(x.name == _cd.name for x in _REG.get(P, [])):
+        contract(P, _cd.name, list(_cd.targets), min_obligations=_cd.min_obligations)(_cd.fn)
+
 MUTANTS = [
     dict(file=PO, func="MonitorPool.del_observed", old="        if name in self.observed_:\n            del self.observed_[name]", new="            if name in self.observed_:\n                del self.observed_[name]", contracts=["CellTrainer.lifecycle"], name="seed C15f: a cell without monitors is never forgotten by the pool"),
     dict(file=PO, func="MonitorPool.add_monitor", old="            if unique:\n                del self.monitors_[observed][name]", new="            if unique:\n                monitor.deregister()\n                del self.monitors_[observed][name]", contracts=["CellTrainer.lifecycle"], name="seed C15: unique re-add deregisters the replaced monitor although another cell pools it"),
